@@ -183,7 +183,7 @@ fn do_op(g: &mut Box<dyn DynGen>, op: &Op, log: &mut Digest) -> Result<(), Strin
 
 /// unrelated activity between two scheduled operations; nothing it returns is logged
 fn disturbance(code: u8, salt: u64) {
-    let _ = guard(|| match code % 5 {
+    let _ = guard(|| match code % 6 {
         0 => {
             // the zero-seed remap and the SplitMix64 expansion helper, on unrelated instances
             for k in [Kind::Xoshiro256PlusPlus, Kind::Xoroshiro64Star, Kind::Xoshiro512Plus, Kind::XorShift] {
@@ -213,6 +213,20 @@ fn disturbance(code: u8, salt: u64) {
                 if let Ok(mut j) = rand_jitter::JitterRng::new() {
                     let _ = j.next_u32();
                 }
+            }
+        }
+        5 => {
+            // constructions that fail half way: the source delivers part of the key material, then an error
+            for (i, k) in [Kind::Isaac, Kind::Isaac64, Kind::Hc128, Kind::XorShift, Kind::Xoshiro256PlusPlus, Kind::Xoroshiro64Star].iter().enumerate() {
+                let n = k.from_rng_len() as u64;
+                let torn = 1 + (salt.wrapping_mul(2654435761).wrapping_add(i as u64 * 97)) % (n - 1);
+                let src = crate::seams::source::SourceSpec {
+                    zero_run: 0,
+                    prefix: Vec::new(),
+                    key: salt ^ 0xfeed,
+                    fault: Some(crate::seams::source::SourceFault { call: 1, torn: torn as u32, token: salt }),
+                };
+                let _ = construct(*k, &SeedSpec::TryFromRng(src));
             }
         }
         4 => {
@@ -518,6 +532,15 @@ fn gen_inst(rng: &mut Prng) -> Inst {
         2 => SeedSpec::U64(rng.edge_u64()),
         _ => gen_seed(rng, kind),
     };
+    let seed = if rng.chance(1, 8) {
+        // a construction that FAILS: the source writes part of the key material and then returns an error
+        let mut src = gen_source(rng, kind);
+        let n = kind.from_rng_len() as u64;
+        src.fault = Some(crate::seams::source::SourceFault { call: 1, torn: rng.range(1, n.max(2) - 1) as u32, token: rng.u64() });
+        SeedSpec::TryFromRng(src)
+    } else {
+        seed
+    };
     let mut ops = gen_output_ops(rng, kind, 14);
     if kind.has_jump() && rng.chance(1, 3) {
         let at = rng.below(ops.len() as u64 + 1) as usize;
@@ -618,7 +641,7 @@ impl Scenario for C19 {
         let mut cur_t = 0u8;
         for k in 0..total_ops + total_ops / 4 {
             if rng.chance(1, 9) {
-                sched.push((200 + rng.below(5) as u8, rng.below(spec.threads as u64) as u8));
+                sched.push((200 + rng.below(6) as u8, rng.below(spec.threads as u64) as u8));
                 continue;
             }
             let i = match style {
